@@ -7,6 +7,7 @@ package main
 import (
 	"context"
 	"fmt"
+	"github.com/lni/dragonboat/v4/config"
 	"math/rand"
 	"os"
 	"sort"
@@ -98,6 +99,7 @@ type chaosOpt struct {
 	SaveDelayMs   int    `json:"save_delay_ms"`
 	PaceMs        int    `json:"pace_ms"`
 	SlowPrepareMs int    `json:"slow_prepare_ms"`
+	Snappy        bool   `json:"entry_compression_snappy"`
 	Seed          int64  `json:"seed"`
 }
 
@@ -146,6 +148,7 @@ func chaosMode(r *common.Run, sk *sink) {
 			o.SaveDelayMs = 2 + rng.Intn(4)
 		}
 		o.NonVoting = rng.Intn(3) == 0
+		o.Snappy = rng.Intn(3) == 0
 		if r.Mode == "replay" {
 			// C08: frequent snapshots, short logs (lagging replicas need a snapshot: a file for
 			// plain / concurrent state machines, a live stream for on-disk ones), slow PrepareSnapshot
@@ -215,6 +218,9 @@ func runChaos(r *common.Run, sk *sink, o chaosOpt) {
 		cfg := cluster.ShardConfig(shardID, uint64(i+1))
 		cfg.PreVote, cfg.CheckQuorum = o.PreVote, o.CheckQuorum
 		cfg.SnapshotEntries, cfg.CompactionOverhead = o.SnapEntries, o.Overhead
+		if o.Snappy {
+			cfg.EntryCompressionType = config.Snappy
+		}
 		if err := c.Hosts[i].StartReplica(members, false, kind, cfg); err != nil {
 			r.Inconclusive(fmt.Sprintf("case %d: replica did not start: %v", o.Case, err))
 			c.StopAll()
@@ -250,6 +256,9 @@ func runChaos(r *common.Run, sk *sink, o chaosOpt) {
 			cfg.PreVote, cfg.CheckQuorum = o.PreVote, o.CheckQuorum
 			cfg.SnapshotEntries, cfg.CompactionOverhead = o.SnapEntries, o.Overhead
 			cfg.IsNonVoting = true
+			if o.Snappy {
+				cfg.EntryCompressionType = config.Snappy
+			}
 			if err := nvHost.StartReplica(nil, true, kind, cfg); err == nil {
 				replicas[nvID] = o.Hosts
 				sk.Count("cases_with_non_voting_replica", 1)
